@@ -483,4 +483,7 @@ pub enum Action {
     PollRetractCheck { w: u32 },
     /// The server process dies; the journal keeps `keep_bytes` bytes; a new server restores
     CrashServer { keep_bytes: Option<u64> },
+    /// The (stubbed) autoalloc service creates (next free id) or removes (`id`) an allocation
+    /// queue and records it through the real event streamer
+    QueueEvent { create: bool, id: u32 },
 }
